@@ -32,13 +32,25 @@ Definition sort_by {A} (key : A -> N) (l : list A) : list A :=
 
 Definition canon (l : list (N * msg)) : list (N * msg) := sort_by fst l.
 
+(* projection of a model state and outcome; lists in the model's own order *)
 Definition obs_of (st : state) (out : outcome) : obs :=
   {| ob_applied := applied out;
-     ob_msgs := canon (msgs out);
-     ob_sessions := map (fun s => (ss_sid s, sort_by (fun x => x) (ss_pubs s), sort_by (fun x => x) (ss_subs s))) (sessions st);
-     ob_clients := sort_by e_id (clients st);
-     ob_open := sort_by e_id (mopen st);
+     ob_msgs := msgs out;
+     ob_sessions := map (fun s => (ss_sid s, ss_pubs s, ss_subs s)) (sessions st);
+     ob_clients := clients st;
+     ob_open := mopen st;
      ob_pending := map p_tok (pendings st) |}.
+
+(* canonical order: messages grouped by connection (order per connection kept),
+   everything else ascending *)
+Definition norm (o : obs) : obs :=
+  {| ob_applied := ob_applied o;
+     ob_msgs := canon (ob_msgs o);
+     ob_sessions := sort_by (fun x => fst (fst x))
+                      (map (fun x => (fst (fst x), sort_by (fun y => y) (snd (fst x)), sort_by (fun y => y) (snd x))) (ob_sessions o));
+     ob_clients := sort_by e_id (ob_clients o);
+     ob_open := sort_by e_id (ob_open o);
+     ob_pending := sort_by (fun y => y) (ob_pending o) |}.
 
 (* ---- decidable equalities --------------------------------------------------- *)
 Definition err_eqb (a b : err) : bool :=
@@ -86,8 +98,10 @@ Definition same_state (a b : obs) : bool :=
   list_eqb entry_eqb (ob_open a) (ob_open b) &&
   list_eqb N.eqb (ob_pending a) (ob_pending b).
 
-Definition obs_eqb (a b : obs) : bool :=
+Definition obs_eqb_raw (a b : obs) : bool :=
   Bool.eqb (ob_applied a) (ob_applied b) && list_eqb cmsg_eqb (ob_msgs a) (ob_msgs b) && same_state a b.
+(* equality up to the canonical order *)
+Definition obs_eqb (a b : obs) : bool := obs_eqb_raw (norm a) (norm b).
 
 (* ---- the property, as a checker over (operation, observation) traces --------
    Written from the property text:
